@@ -433,6 +433,50 @@ func c13Process(rep *Report) {
 		}
 		in.Close()
 	}
+	// two instances made from the same definitions with the same timer builder at different clock times: each has
+	// a timer of its own (due 60 s after its own creation)
+	{
+		cs := "two instances from one definitions value and one timer builder, created at T0 and T0+30s"
+		defs, err := ParseDefs(xmlText)
+		must(err)
+		mock := clock.NewMockAt(c13T(0))
+		ctx0 := clock.ToContext(context.Background(), mock)
+		fan := event.NewFanOut()
+		tr := tracing.NewTracer(ctx0)
+		b := event.DefinitionInstanceBuildingChain(timer.EventDefinitionInstanceBuilder(ctx0, fan, tr))
+		mk := func() *Inst {
+			in, err := StartInst(defs, InstOpt{Opts: []bpmn.Option{bpmn.WithContext(ctx0), bpmn.WithTracer(tracing.NewTracer(ctx0)),
+				bpmn.WithProcessEventDefinitionInstanceBuilder(b), bpmn.WithEventEgress(fan), bpmn.WithEventIngress(fan)}})
+			must(err)
+			return in
+		}
+		in1 := mk()
+		mock.Set(c13T(30))
+		in2 := mk()
+		for _, in := range []*Inst{in1, in2} {
+			in.Answer("A", tmoStep)
+			in.WaitUntil(tmoStep, func(l []Ev) bool { return countEv(l, "listening", "C") > 0 })
+		}
+		mock.Set(c13T(60))
+		in1.WaitUntil(tmoStep, func(l []Ev) bool { return countEv(l, "task", "B") > 0 })
+		time.Sleep(settle)
+		b1, b2 := countEv(in1.Log(), "task", "B"), countEv(in2.Log(), "task", "B")
+		if b1 != 1 || b2 != 0 {
+			rep.Violate("C13-process", cs, fmt.Sprintf("at T0+60s: first instance continued %d times (expected 1), second %d times (expected 0: its timer is due at T0+90s)", b1, b2))
+		}
+		mock.Set(c13T(90))
+		in2.WaitUntil(tmoStep, func(l []Ev) bool { return countEv(l, "task", "B") > 0 })
+		time.Sleep(settle)
+		b1, b2 = countEv(in1.Log(), "task", "B"), countEv(in2.Log(), "task", "B")
+		if b1 != 1 || b2 != 1 {
+			rep.Violate("C13-process", cs, fmt.Sprintf("at T0+90s: first instance continued %d times, second %d times (expected 1 and 1)", b1, b2))
+		}
+		rep.Evaluations++
+		rep.Nontrivial++
+		rep.Count("process_timer_two_instances")
+		in1.Close()
+		in2.Close()
+	}
 }
 
 func runC13(env *Env) {
